@@ -67,6 +67,7 @@ type Options struct {
 	Timeout                                                          int
 	KeepQueries                                                      bool
 	Dump                                                             string
+	Lock                                                             string
 }
 
 func main() {
@@ -79,6 +80,8 @@ func main() {
 		os.Exit(cmdCheck(os.Args[2:]))
 	case "dump":
 		os.Exit(cmdDump(os.Args[2:]))
+	case "lock":
+		os.Exit(cmdLock(os.Args[2:]))
 	case "replay":
 		os.Exit(cmdReplay(os.Args[2:]))
 	default:
@@ -129,6 +132,7 @@ func cmdCheck(args []string) int {
 	fs.BoolVar(&o.Verbose, "v", false, "verbose")
 	fs.IntVar(&o.Timeout, "timeout", 0, "per-obligation timeout (s)")
 	fs.BoolVar(&o.KeepQueries, "keep", false, "keep query files")
+	fs.StringVar(&o.Lock, "lock", "/verif/contracts.lock.json", "recorded names of parameters and locals (rename robustness)")
 	fs.Parse(args)
 	if o.Timeout == 0 {
 		o.Timeout = 10
@@ -154,6 +158,9 @@ type checkRun struct {
 func runCheck(o *Options) int {
 	start := time.Now()
 	prog, err := LoadProgram(o.Repo, []string{"./..."}, o.SpecDir, o.Tags)
+	if err == nil {
+		prog.Lock = loadLock(o.Lock)
+	}
 	if err != nil {
 		fmt.Fprintln(os.Stderr, "govc: load:", err)
 		return 2
